@@ -1217,8 +1217,8 @@ for _n, _l in (('<std::string::String as std::default::Default>::default', 'Stri
                ('std::string::ToString::to_string', 'to_string'),
                ('std::fmt::format', 'format'),
                ('alloc::fmt::format', 'format'),
-               ('std::fmt::Arguments::<\'a>::new', 'fmt::Arguments'),
-               ('std::fmt::Arguments::<\'a>::from_str', 'fmt::Arguments'),
+               ('std::fmt::Arguments::<\'_>::new', 'fmt::Arguments'),
+               ('std::fmt::Arguments::<\'_>::from_str', 'fmt::Arguments'),
                ('core::fmt::rt::Argument::<\'_>::new_display', 'fmt::arg'),
                ('core::fmt::rt::Argument::<\'_>::new_debug', 'fmt::arg'),
                ('core::fmt::rt::Argument::<\'_>::new_lower_hex', 'fmt::arg'),
